@@ -57,6 +57,44 @@ def gen_value(rng, depth=0):
     return {"t": [gen_value(rng, depth + 1) for _ in range(rng.randint(1, 2))]}
 
 
+TWINS = [[{"i": 1}, {"f": "1.0"}, {"b": True}], [{"i": 0}, {"f": "0.0"}, {"b": False}, {"f": "-0.0"}]]
+
+
+def type_twin(rng, v):
+    """a value that is EQUAL under == (and has the same builtin hash) but of another type somewhere inside:
+    1 / 1.0 / True, 0 / 0.0 / False, also nested in tuples, lists, frozensets, sets and as dict keys / values"""
+    (t, x), = v.items()
+    for grp in TWINS:
+        if v in grp:
+            return rng.choice([w for w in grp if w != v])
+    if t in ("t", "l", "S", "F") and x:
+        i = rng.randrange(len(x))
+        return {t: [type_twin(rng, e) if j == i else e for j, e in enumerate(x)]}
+    if t == "d" and x:
+        i = rng.randrange(len(x))
+        return {"d": [[type_twin(rng, k), w] if j == i and rng.random() < 0.5 else
+                      ([k, type_twin(rng, w)] if j == i else [k, w]) for j, (k, w) in enumerate(x)]}
+    return v
+
+
+def gen_twin_value(rng):
+    """values that have type twins: scalars, tuples, frozensets, dicts keyed by them (also with a str key next to
+    them, so that the hasher's mixed-kind fallback is taken)"""
+    base = rng.choice([{"i": 1}, {"i": 0}, {"f": "1.0"}, {"b": True}])
+    r = rng.random()
+    if r < 0.2:
+        return base
+    if r < 0.4:
+        return {"t": [base, {"s": "a"}]}
+    if r < 0.55:
+        return {"F": [base]}
+    if r < 0.7:
+        return {"d": [[base, {"i": 5}]]}
+    if r < 0.9:
+        return {"d": [[base, {"i": 5}], [{"s": "k"}, {"i": 6}]]}
+    return {"t": [{"F": [base, {"s": "a"}]}, {"d": [[base, base]]}]}
+
+
 def reorder(rng, v):
     """the same value built in another order (dict / set), recursively"""
     (t, x), = v.items()
@@ -142,6 +180,8 @@ def gen_call(rng, params, base=None):
             values[name] = base[name]
         elif default is not None and rng.random() < 0.35:
             values[name] = default
+        elif rng.random() < 0.15:
+            values[name] = gen_twin_value(rng)
         else:
             values[name] = gen_value(rng)
     if base is not None:
@@ -220,6 +260,8 @@ def gen_sig_scenario(rng, params, sid, quick=True):
     sc = {"id": sid, "type": "sig", "params": params, "ignore": ignore, "compress": compress,
           "verbose": rng.choice([0, 0, 1, 2, 11, 60]), "mmap_mode": rng.choice([None, None, None, None, "r", "c"]),
           "picklable": kind in ("def", "method") and rng.random() < 0.6,
+          # half of the scenarios use wrappers WITHOUT a validation callback (then nothing ever looks at the metadata)
+          "callback": rng.random() < 0.5,
           "versions": {"0": {"tag": "v0", "path": "verifmod.py", "pad": rng.choice([0, 0, 2]), "kind": kind}}}
     events = [["define", 0], ["wrap", 0]]
     bindings = []
@@ -235,7 +277,12 @@ def gen_sig_scenario(rng, params, sid, quick=True):
             b = dict(rng.choice(bindings))
             cand = [k for k in b if k not in ("*", "**") and k not in ignore]
             r2 = rng.random()
-            if "*" in b and r2 < 0.4:
+            if cand and rng.random() < 0.35:
+                # same call but one value replaced by its ==-equal twin of another type (1 / 1.0 / True ...)
+                k = rng.choice(cand)
+                tw = type_twin(rng, b[k])
+                b[k] = tw if tw != b[k] else gen_twin_value(rng)
+            elif "*" in b and r2 < 0.4:
                 # same named arguments, other surplus positionals (one more, one fewer, one changed)
                 ex = list(b["*"])
                 op = rng.choice(["add", "drop", "change"]) if ex else "add"
@@ -263,7 +310,7 @@ def gen_sig_scenario(rng, params, sid, quick=True):
         else:
             cs, b = gen_call(rng, params)
             bindings.append(b)
-        vld = rng.random() > 0.12
+        vld = rng.random() > 0.12 or not sc["callback"]
         if vld or rng.random() < 0.5:     # an invalidating check would already delete the entry
             events.append(["check", 0, cs, vld])
         if rng.random() < 0.27:
@@ -280,8 +327,21 @@ def gen_sig_scenario(rng, params, sid, quick=True):
             events.append(["clearmem"])
         elif r < 0.12 and n_refs:
             events.append(["clearref", rng.randrange(n_refs)])
-        elif r < 0.17:
-            events.append(["evict", rng.randint(0, 3)])
+        elif r < 0.20:
+            # an entry disappears by some public route (or behind joblib's back), here or in a second process
+            route = rng.choice(["items", "items", "bytes", "age", "rmentry", "clearfunc2", "clearfunc2"])
+            sidep = ["side"] if rng.random() < 0.35 and kind != "main" else []
+            if route == "items":
+                events.append(["evict", rng.randint(0, 3)] + sidep)
+            elif route == "bytes":
+                events.append(["evict", {"bytes": rng.choice([0, 200, "1K"])}] + sidep)
+            elif route == "age":
+                events.append(["evict", {"age": 0}] + sidep)
+            elif route == "rmentry":
+                events.append(["rmentry"])
+            elif kind in ("def", "nested", "lambda") or not sidep:
+                opts = {"ignore": rng.choice([None, list(ignore)]), "mmap_mode": rng.choice([None, "r"])}
+                events.append(["clearfunc2", 0, opts] + (sidep if kind == "def" else []))
         elif r < 0.22 and n_refs:
             events.append(["get", rng.randrange(n_refs)])
         elif multi and r < 0.40:
@@ -492,6 +552,37 @@ def fixed_scenarios(prop):
                     "params": [["a", "pk", None], ["b", "pk", None], ["c", "pk", I(12)], ["d", "ko", I(13)]],
                     "ignore": [], "compress": False, "versions": V, "mode": "own", "events": ev})
     if prop in ("C02", "C06"):
+        # values equal under == but of different type, through ONE wrapper in one process: every one is its own entry
+        ev = [["define", 0], ["wrap", 0]]
+        one = [{"i": 1}, {"f": "1.0"}, {"b": True}]
+        groups = [one, [{"t": [v, {"s": "a"}]} for v in one], [{"F": [v]} for v in one],
+                  [{"d": [[v, I(0)], [{"s": "k"}, I(0)]]} for v in one], [{"d": [[v, I(0)]]} for v in one],
+                  [{"d": [[{"s": "k"}, v]]} for v in one], [{"S": [v, {"s": "z"}]} for v in one]]
+        for grp in groups:
+            for v in grp + grp[::-1]:
+                cs = {"pos": [v], "kw": []}
+                ev += [["check", 0, cs, True], ["call", 0, cs, True]]
+        out.append({"id": "fixed-type-twins-1-1.0-True", "type": "sig", "callback": False,
+                    "params": [["a", "pk", None], ["b", "pk", I(0)]], "ignore": [], "compress": False,
+                    "versions": {"0": {"tag": "v0", "path": "verifmod.py", "pad": 0, "kind": "def"}}, "events": ev})
+        # every public eviction route (and one behind joblib's back) against a long-lived wrapper WITHOUT a validation
+        # callback: after each, check_call_in_cache / call / call_and_shelve().get() must agree with the store
+        ev = [["define", 0], ["wrap", 0]]
+        routes = [["evict", 0], ["evict", {"bytes": 0}], ["evict", {"age": 0}], ["rmentry"], ["clearmem"],
+                  ["clearfunc2", 0, {"ignore": None, "mmap_mode": None}], ["clearfunc2", 0, {"ignore": ["b"], "mmap_mode": "r"}],
+                  ["evict", 0, "side"], ["clearfunc2", 0, {"ignore": None, "mmap_mode": None}, "side"], ["clearref", 0]]
+        nref = 0
+        for n, route in enumerate(routes):
+            ev += [_call(0, [n], kind="check"), _call(0, [n]), _call(0, [n], kind="check"), _call(0, [n])]
+            if route[0] == "clearref":
+                ev += [_call(0, [n], kind="shelve")]
+                route = ["clearref", nref]
+                nref += 1
+            ev += [route, _call(0, [n], kind="check"), _call(0, [n], kind="shelve"), ["get", nref], _call(0, [n])]
+            nref += 1
+        out.append({"id": "fixed-eviction-by-every-route", "type": "sig", "callback": False,
+                    "params": [["a", "pk", None], ["b", "pk", I(0)]], "ignore": [], "compress": False,
+                    "versions": {"0": {"tag": "v0", "path": "verifmod.py", "pad": 0, "kind": "def"}}, "events": ev})
         # a default that compares equal to everything (unittest.mock.ANY): search('k') / search('k', ANY, 10) /
         # search('k', limit=10) are one binding
         ANY = {"o": "eqall"}
@@ -827,7 +918,7 @@ def run_scenario(sc, timeout=300):
                 continue
             job = {"cache": cache, "moddir": moddir, "refs": os.path.join(tmp, "refs.pkl"),
                    "scenario": {k: sc[k] for k in ("versions", "params", "ignore", "compress", "verbose", "mmap_mode",
-                                                   "picklable") if k in sc}, "events": seg}
+                                                   "picklable", "callback") if k in sc}, "events": seg}
             p = subprocess.run([common.PYNP if sc.get("py") == "np" else common.PY,
                                 os.path.join(common.ROOT, "harness", "impl", "c02_impl.py")],
                                input=json.dumps(job), stdout=subprocess.PIPE, stderr=subprocess.PIPE, text=True,
@@ -891,9 +982,9 @@ def monitor(sc, classify=False):
         elif t == "wrap":
             if ev[1] in live:
                 wraps = [ev[1]] + [k for k in wraps if k != ev[1]]
-        elif t in ("call", "shelve", "check", "clearfunc"):
+        elif t in ("call", "shelve", "check", "clearfunc", "clearfunc2"):
             k = ev[1]
-            if t != "clearfunc" and sc.get("_raises", {}).get(i):
+            if t not in ("clearfunc", "clearfunc2") and sc.get("_raises", {}).get(i):
                 continue
             if k in wraps:
                 if k in stale:
@@ -1047,14 +1138,14 @@ def judge(sc, res):
                                  "key": fa_key([j] + [q for q, e2 in enumerate(evs[:i]) if e2.get("args_id") == aid]),
                                  "what": ".get() of the reference shelved at event %d returned %s, expected %s"
                                          % (j, r["v"], expect)})
-        elif t in ("clearfunc", "clearmem"):
+        elif t in ("clearfunc", "clearmem", "clearfunc2"):
             completed.clear()
         elif t == "clearref":
             if ev[1] in ref_info:
                 aid = ref_info[ev[1]][4]
                 for ck in by_args_id.get(aid, ()):
                     completed.pop(ck, None)
-        elif t == "evict":
+        elif t in ("evict", "rmentry"):
             for aid in r.get("evicted", []):
                 for ck in by_args_id.get(aid, ()):
                     completed.pop(ck, None)
@@ -1127,11 +1218,11 @@ def model_terms(sc, res):
             hist.append("Get %d" % ev[1])
         elif t == "clearref":
             hist.append("ClearRef %d" % ev[1])
-        elif t == "clearfunc":
-            hist.append("ClearFunc %d" % ev[1])
+        elif t in ("clearfunc", "clearfunc2"):
+            hist.append("ClearFunc %d" % ev[1])     # a second wrapper of the same function clears the same directory
         elif t == "clearmem":
             hist.append("ClearMem")
-        elif t == "evict":
+        elif t in ("evict", "rmentry"):
             ds = [keyc[a] for a in r.get("evicted", []) if a in keyc]
             if len(ds) != len(r.get("evicted", [])):
                 return None
@@ -1160,7 +1251,8 @@ def impl_view(sc, res, tables):
             out += [(1, 0, 0), (1, 0, 0)]
         elif r.get("o") == "skip":
             out.append((0, 0, 0))
-        elif t in ("define", "wrap", "recode", "clearref", "clearfunc", "clearmem", "evict", "newprocess"):
+        elif t in ("define", "wrap", "recode", "clearref", "clearfunc", "clearfunc2", "clearmem", "evict", "rmentry",
+                   "newprocess"):
             out.append((1, 0, 0))
         elif r["o"] == "raise":
             out.append((2, 1 if r.get("e") == "KeyError" else (2 if r.get("e") == "TypeError" and
